@@ -1148,6 +1148,10 @@ def expr_fn(
     ret = parse_expr(tok)
     if isinstance(ret, str):
         return ret
+    if tokidx < len(tokens):
+        # something is left over ("1 2", "1,000", "2 pi", an unknown operator):
+        # the expression is malformed, its first part is not its value
+        return expr_error(tokens[tokidx])
     if isinstance(ret, float):
         if ret == math.floor(ret):
             return str(int(ret))
